@@ -22,7 +22,8 @@ import (
 // workload and records its inputs; a separate process (`verif crashchild`) replays them over an
 // on-disk LevelDB and is killed with SIGKILL at arbitrary moments - inside FinalizeBlock, inside
 // Commit, between the two, while the database is flushing - and started again until it reaches the
-// end. Deciding oracle (no clock involved): every application hash the child reports, before or
+// end (the kill follows the child's own progress: after a PRNG-chosen number of reported blocks plus
+// a PRNG-chosen fraction of a block). Deciding oracle (no clock involved): every application hash the child reports, before or
 // after any number of kills, equals the primary's hash of that height; after a restart the child
 // is at a height it had reported as committed, or one above; it never fails to start.
 func init() {
@@ -81,14 +82,37 @@ func init() {
 			}
 			done := make(chan error, 1)
 			go func() { done <- cmd.Wait() }()
-			// the moment of the kill: spread over several orders of magnitude so that start-up, block
-			// execution and commits are all hit
-			delay := time.Duration(30+r.Intn(30)*r.Intn(30)*r.Intn(4)) * time.Millisecond
+			// the moment of the kill is tied to the child's own progress, not to the clock: let a
+			// PRNG-chosen number of further blocks be reported (0 = still starting up or in its first
+			// block), then wait a PRNG-chosen fraction of a block longer. A loaded machine changes where
+			// exactly inside a block the kill lands, not how many kills there are.
+			target := []int{0, 0, 1, 1, 2, 3, 5, 8}[r.Intn(8)]
+			extra := time.Duration(r.Intn(25_000)) * time.Microsecond
 			if kills >= maxKills {
-				delay = 20 * time.Minute // let it finish
+				target = 1 << 30 // let it finish
 			}
+			base := countLines(outPath)
+			trigger := make(chan struct{})
+			stopPoll := make(chan struct{})
+			go func() {
+				for {
+					select {
+					case <-stopPoll:
+						return
+					default:
+					}
+					if countLines(outPath)-base >= target+1 { // +1: the "start" line of this run
+						time.Sleep(extra)
+						close(trigger)
+						return
+					}
+					time.Sleep(2 * time.Millisecond)
+				}
+			}()
+			delayC := trigger
 			select {
 			case werr := <-done:
+				close(stopPoll)
 				ef.Close()
 				if werr == nil {
 					finished = true
@@ -102,12 +126,17 @@ func init() {
 						Detail: fmt.Sprintf("the replaying process failed by itself after %d kills (%v): %s", kills, werr, stderrTail)})
 					finished = true
 				}
-			case <-time.After(delay):
+			case <-delayC:
 				cmd.Process.Signal(syscall.SIGKILL)
 				<-done
 				ef.Close()
 				kills++
 				st.Ev("process_kills")
+			}
+			select {
+			case <-stopPoll:
+			default:
+				close(stopPoll)
 			}
 		}
 		if !finished {
@@ -178,4 +207,12 @@ func init() {
 		c.Require(kills >= 5 && len(killHeights) >= 3, "at least 5 kills at 3 distinct heights")
 		st.Sample(map[string]interface{}{"case": "process killed with SIGKILL and restarted from its LevelDB", "kills": kills, "distinct_restart_heights": len(killHeights), "blocks": last})
 	})
+}
+
+func countLines(path string) int {
+	bs, err := os.ReadFile(path)
+	if err != nil {
+		return 0
+	}
+	return strings.Count(string(bs), "\n")
 }
